@@ -4,6 +4,10 @@
      the extracted model of Writer::Append (coq/C07/CountModel.v); specification oracle: per-n-gram totals over all
      blocks equal the true counts, whatever the block capacity; every block duplicate-free and within capacity;
      word ids in first-occurrence order whatever the initial vocabulary estimate.
+ (a2) component: the real lm::builder::AdjustCounts (with its CollapseStream) fed with the same sorted highest-order counts
+     under different block splits; oracle: the highest-order records passed on are exactly the entries without <s> in
+     position 1, each marked by its own count (pruning), everything else is independent of the split; the blocks are
+     compared with the extracted model of CollapseStream (coq/C07/CollapseStreamModel.v).
  (b) tool: `lmplz` --arpa and --intermediate outputs byte-identical across a lattice of
      (-S, --sort_block, --minimum_block, --block_count, --vocab_estimate, -T) from "a few hundred KB, many spills,
      multi-pass merges" to "all in RAM", and across repeated runs (OS scheduling of the worker threads varies)."""
@@ -45,6 +49,35 @@ def gen_corpus(rng, sentences, types, maxlen, style="zipf"):
             ln = rng.choice([1, 2, 3, rng.range(1, maxlen)])
             lines.append(" ".join(zipf_word(rng, types) for _ in range(ln)))
     return lines
+
+
+def gen_ids_corpus(rng, base_sentences, types, nids, maxlen):
+    """ordinary sentences (they saturate the vocabulary), then `records`: every line of a record starts with the record's
+    unique id (log / document / utterance ids).  The ids get consecutive vocabulary numbers and occur only sentence-initially,
+    so the highest order holds long runs of adjacent `<s> <s> id` entries -- the entries CollapseStream deletes block by block."""
+    lines = gen_corpus(rng, base_sentences, types, maxlen, "zipf")
+    k = 0
+    while k < nids:
+        burst = min(nids - k, rng.choice([1, 5, 40, 200, nids]))
+        for j in range(burst):
+            for _ in range(rng.choice([1, 2, 2, 3])):
+                lines.append("doc%05d " % (k + j) + " ".join(zipf_word(rng, min(types, 60)) for _ in range(rng.range(1, 6))))
+        k += burst
+        if k < nids and rng.chance(1, 2):
+            lines += gen_corpus(rng, rng.range(1, 30), types, maxlen, "zipf")      # already-seen words only: no new ids in between
+    return lines
+
+
+def prune_options(rng, order):
+    """--prune thresholds (non-decreasing, 0 for unigrams) that prune at least the highest order"""
+    if order < 2:
+        return []
+    last = rng.choice([1, 1, 2])
+    th = [0] * (order - 1) + [last]
+    if order >= 3 and rng.chance(1, 2):
+        th[order - 2] = rng.choice([1, last]) if last >= 1 else 0
+        th[order - 2] = min(th[order - 2], last)
+    return ["--prune"] + [str(t) for t in th]
 
 
 def ids_of(lines):
@@ -120,11 +153,106 @@ def oracle_component(order, sents, ntypes, o):
 
 
 # ---------------------------------------------------------------------------------------------
+# component: AdjustCounts / CollapseStream under different block splits of the same sorted highest-order stream
+def sorted_counts(order, sents):
+    """what the first sort hands to AdjustCounts: distinct n-grams with counts, in SuffixOrder"""
+    c = true_counts(order, sents)
+    return sorted(c.items(), key=lambda kv: tuple(reversed(kv[0])))
+
+
+def split_blocks(rng, recs, style):
+    n = len(recs)
+    if style == "single" or n == 0:
+        return [recs]
+    blocks, i = [], 0
+    bos_run = lambda j: len(recs[j][0]) > 1 and recs[j][0][1] == 1
+    while i < n:
+        if style == "ones":
+            take = 1
+        elif style == "runs":
+            # block boundaries exactly around / inside the runs of entries with <s> in position 1
+            j = i
+            while j < n and bos_run(j) == bos_run(i):
+                j += 1
+            take = j - i if rng.chance(1, 2) else rng.range(1, j - i)
+        else:
+            take = rng.choice([1, 2, 3, rng.range(1, 12), rng.range(1, 80)])
+        blocks.append(recs[i:i + take])
+        i += take
+        if rng.chance(1, 12):
+            blocks.append([])
+    return blocks
+
+
+def gen_adjust(rng, n_inputs):
+    groups = []
+    for _ in range(n_inputs):
+        style = rng.choice(["ids", "ids", "zipf", "emptyish"])
+        if style == "ids":
+            lines = gen_ids_corpus(rng, rng.range(0, 40), rng.choice([3, 10, 40]), rng.choice([3, 10, 40, 120]), 6)
+        else:
+            lines = gen_corpus(rng, rng.range(1, 60), rng.choice([2, 5, 30]), 6, style)
+        sents, vocab = ids_of(lines)
+        order = rng.range(2, 5)
+        recs = sorted_counts(order, sents)
+        top = rng.choice([0, 1, 1, 2, 3])
+        thr = [0] * (order - 1) + [top]
+        if order >= 3 and rng.chance(1, 3):
+            thr[order - 2] = min(top, 1)
+        types = len(vocab) + 3
+        pw = sorted({rng.range(3, types - 1) for _ in range(rng.range(1, 4))}) if (types > 3 and rng.chance(1, 4)) else []
+        cases = []
+        for st in ["single", "ones", "runs", "runs", "random", "random"]:
+            blocks = split_blocks(rng, recs, st)
+            body = " / ".join(" ".join(".".join(hx(w) for w in g) + ":" + hx(c) for g, c in b) for b in blocks)
+            body = " ".join(body.split())
+            pws = ",".join(hx(w) for w in pw) if pw else "-"
+            iline = "AC %x %s %s %x %x %s" % (order, ",".join(hx(t) for t in thr), pws, types, rng.range(1, 3), body)
+            mline = "AC %x %s %s" % (top, pws, body)
+            cases.append((iline.rstrip(), mline.rstrip(), st))
+        groups.append({"order": order, "recs": recs, "thr": thr, "pw": pw, "cases": cases, "corpus": lines})
+    return groups
+
+
+def parse_marked(body):
+    blocks = []
+    for b in body.split("|"):
+        recs = []
+        for t in b.split():
+            k, c = t.split(":")
+            m = c.endswith("*")
+            recs.append((tuple(int(w, 16) for w in k.split(".")), int(c.rstrip("*"), 16), m))
+        blocks.append(recs)
+    return blocks
+
+
+def oracle_adjust(group, o):
+    """specification (property text: chain block boundaries never change the data): what leaves the highest order is, as a
+    multiset, the entries without <s> in position 1, each marked iff its own count is at or below the threshold (or it
+    contains a pruned word)"""
+    if not o.startswith("O1"):
+        return "AdjustCounts did not deliver: %s" % o[:200]
+    parts = o.split(" # ")
+    top = parts[group["order"] - 1]
+    if "RAGGED" in top:
+        return "a block's valid size is not a multiple of the record size"
+    got = sorted(r for b in parse_marked(top.split(" ", 1)[1] if " " in top else "") for r in b)
+    thr, pw = group["thr"][-1], set(group["pw"])
+    exp = sorted((g, c, (c <= thr) or any(w in pw for w in g)) for g, c in group["recs"] if not (len(g) > 1 and g[1] == 1))
+    if got != exp:
+        extra = [r for r in got if r not in exp][:3]
+        missing = [r for r in exp if r not in got][:3]
+        return "highest-order records passed on differ from {entries without <s> in position 1, marked by their own count}: unexpected %s, missing %s" % (extra, missing)
+    return None
+
+
+# ---------------------------------------------------------------------------------------------
 # lmplz lattice
 REJECT_MARKERS = ("Not enough memory to fit", "is below the minimum block size", "Vocab hash size estimate", "Chain configured with",
                   "is too small for four buffers", "Sort buffer too small", "Sorting entries of size 0", "Try rerunning with a more conservative",
                   "Cannot allocate memory", "std::bad_alloc", "bad_alloc")
-CRASH_MARKERS = ("Bug in sort implementation", "Chain ending without poison", "Last input should have been poison")
+# ("Last input should have been poison" is printed by ~Link while ANY exception unwinds a worker: not a crash marker)
+CRASH_MARKERS = ("Bug in sort implementation", "Chain ending without poison")
 
 
 def run_lmplz(ctx, tool, corpus, order, cfg, tag, extra=()):
@@ -161,8 +289,9 @@ def run_lmplz(ctx, tool, corpus, order, cfg, tag, extra=()):
     elif any(m in err for m in REJECT_MARKERS):
         res = ("rejected", err.strip().split("\n")[-1][-200:])
     elif rc in (134, -6) and err.strip():
-        # an exception caught by Pipeline (printed, then abort()): a configuration the tool does not accept
-        res = ("rejected", err.strip().split("\n")[-1][-200:])
+        # some other exception caught by Pipeline (printed, then abort()): the run did not succeed, so the property says
+        # nothing about it -- but it is counted and shown in the evidence, separately from rejected configurations
+        res = ("failed", err.strip().split("\n")[-1][-200:])
     else:
         res = ("crash", "rc=%d %s" % (rc, err[-400:]))
     shutil.rmtree(wd, ignore_errors=True)
@@ -269,21 +398,84 @@ def run(ctx):
     except vlib.ModelBroken as e:
         model_broken = str(e)
 
+    # ---- (a2) component: AdjustCounts with CollapseStream, same sorted input under different block splits -----------
+    groups = gen_adjust(rng, ctx.pick(60, 500))
+    alines = [c[0] for g in groups for c in g["cases"]]
+    aout = vlib.run_lines(impl, alines, timeout=600, env=env)
+    adjust_cases, k = 0, 0
+    for g in groups:
+        ref = None
+        for (iline, mline, st) in g["cases"]:
+            o = aout[k]; k += 1
+            adjust_cases += 1
+            rep = {"driver_case": iline[:200000], "model_case": mline[:200000], "impl_output": o[:3000], "split": st, "adjust": True,
+                   "order": g["order"], "thr": g["thr"], "pw": g["pw"], "recs": [[list(gk), c] for gk, c in g["recs"]][:20000]}
+            msg = oracle_adjust(g, o)
+            if msg:
+                spec_fail.append(("adjust_counts:collapse:order%d" % g["order"], rep, msg))
+                continue
+            # everything except the block structure of the highest order must not depend on the split
+            parts = o.split(" # ")
+            rest = parts[:g["order"] - 1] + parts[g["order"]:]
+            if ref is None:
+                ref = (rest, iline)
+            elif rest != ref[0]:
+                rep["reference_case"] = ref[1][:200000]
+                spec_fail.append(("adjust_counts:block-split:order%d" % g["order"], rep,
+                                  "lower-order adjusted counts / statistics / discounts differ between two block splits of the same highest-order stream"))
+    amis = []
+    try:
+        model = vlib.ocaml_model("C07")
+        stack = ["sh", "-c", 'ulimit -s unlimited 2>/dev/null || ulimit -s 4000000 2>/dev/null; exec "$0"']
+        amout = vlib.run_lines(model, [c[1] for g in groups for c in g["cases"]], timeout=600, prefix=stack)
+        k = 0
+        for g in groups:
+            for (iline, mline, st) in g["cases"]:
+                a, b = aout[k], amout[k]; k += 1
+                parts = a.split(" # ")
+                top = parts[g["order"] - 1] if len(parts) >= g["order"] else ""
+                top = top.split(" ", 1)[1] if " " in top else ""
+                if [x.split() for x in top.split("|")] != [x.split() for x in b.split("|")]:
+                    amis.append((iline, mline, a, b))
+                if st != "single" and any(len(gk) > 1 and gk[1] == 1 for gk, _ in g["recs"]):
+                    nontrivial.add(mline)
+    except vlib.ModelBroken as e:
+        model_broken = str(e)
+    mismatches += [(il, ml, a, b) for il, ml, a, b in amis]
+
     # ---- (b) tool: lmplz over the configuration lattice ---------------------------------------------------------
     tool = vlib.tool("lmplz")
     lat = lattice(rng, big)
     tool_runs, accepted, rejected = 0, 0, 0
     lattice_report = []
+    # (name, lines, order, modelling options).  The modelling options are part of what the output MAY depend on; every memory
+    # configuration of the lattice is compared within one (corpus, order, modelling options).  Pruning matters here: with
+    # --prune the highest-order stream is marked and collapsed block by block (adjust_counts.cc CollapseStream), and the
+    # joins of the later stages go through hash tables instead of positions.
     corpora = []
     for i in range(ctx.pick(2, 6)):
         lines = gen_corpus(rng, ctx.pick(3000, 6000), rng.choice([150, 300, 600]), rng.choice([12, 20]), "zipf")
-        corpora.append(("zipf%d" % i, lines, rng.range(3, 5) if i == 0 else rng.range(2, 5)))
-    corpora.append(("boundary-mixed", ["a", "", "a a a a a a a a a a", "b", "a b"] * 40 + gen_corpus(rng, 300, 40, 6, "emptyish"), 3))
+        order = rng.range(3, 5) if i == 0 else rng.range(2, 5)
+        corpora.append(("zipf%d" % i, lines, order, [] if i % 2 == 0 else prune_options(rng, order)))
+    for i in range(ctx.pick(1, 3)):
+        order = rng.choice([3, 3, 4])
+        lines = gen_ids_corpus(rng, ctx.pick(2500, 5000), rng.choice([150, 400]), ctx.pick(500, 1500), 12)
+        corpora.append(("ids%d" % i, lines, order, prune_options(rng, order)))
+    corpora.append(("boundary-mixed", ["a", "", "a a a a a a a a a a", "b", "a b"] * 40 + gen_corpus(rng, 300, 40, 6, "emptyish"), 3,
+                    ["--prune", "0", "0", "1"] if rng.chance(1, 2) else []))
     if big:
-        corpora.append(("one-sentence", ["x y z"], 3))
-        corpora.append(("repeat", gen_corpus(rng, 3000, 1, 1, "repeat"), 5))
-        corpora.append(("long-lines", gen_corpus(rng, 40, 500, 1, "long"), 4))
-    for name, lines, order in corpora:
+        corpora.append(("one-sentence", ["x y z"], 3, []))
+        corpora.append(("repeat", gen_corpus(rng, 3000, 1, 1, "repeat"), 5, []))
+        corpora.append(("long-lines", gen_corpus(rng, 40, 500, 1, "long"), 4, ["--prune", "0", "0", "1", "2"]))
+        lines = gen_ids_corpus(rng, 4000, 300, 1000, 12)
+        corpora.append(("ids-unpruned", lines, 3, []))
+        # --limit_vocab_file: the other way n-grams get marked in CollapseStream (prune_words)
+        vocab_file = os.path.join(corpdir, "limit_vocab.txt")
+        open(vocab_file, "w").write(" ".join("w%d" % k for k in range(0, 300, 2)) + "\n")
+        corpora.append(("zipf-limit-vocab", gen_corpus(rng, 4000, 300, 12, "zipf"), 3, ["--limit_vocab_file", vocab_file]))
+        corpora.append(("ids-limit-vocab", gen_ids_corpus(rng, 3000, 300, 800, 12), 3, ["--limit_vocab_file", vocab_file, "--prune", "0", "0", "1"]))
+    failed_runs, failed_msgs, nothing_accepted = 0, {}, []
+    for name, lines, order, extra in corpora:
         path = os.path.join(corpdir, "%s.txt" % name)
         open(path, "w").write("".join(l + "\n" for l in lines))
         ref = None
@@ -295,7 +487,7 @@ def run(ctx):
         reps += [dict(cfgs[6], _prefix=["taskset", "-c", "0"]), dict(cfgs[10], _prefix=["taskset", "-c", "0"]),
                  dict(cfgs[0], _prefix=["nice", "-n", "19", "taskset", "-c", "0,1"])]
         for j, cfg in enumerate(cfgs + reps):
-            kind, res, cmdline = run_lmplz(ctx, tool, path, order, cfg, "%s-%d" % (name, j))
+            kind, res, cmdline = run_lmplz(ctx, tool, path, order, cfg, "%s-%d" % (name, j), extra)
             tool_runs += 1
             per_cfg.append((kind, cfg))
             if kind == "ok":
@@ -305,44 +497,62 @@ def run(ctx):
                 elif res != ref[0]:
                     diff = sorted(k for k in set(res) | set(ref[0]) if res.get(k) != ref[0].get(k))
                     spec_fail.append(("lmplz:bytes-differ", {"corpus": "\n".join(lines)[:400000], "order": order, "reference_cmd": ref[1], "differing_cmd": cmdline,
-                                                             "reference_cfg": ref[2], "differing_cfg": cfg, "files_that_differ": diff},
+                                                             "reference_cfg": ref[2], "differing_cfg": cfg, "extra": extra, "files_that_differ": diff},
                                       "lmplz output differs between two accepted configurations: %s" % ", ".join(diff)))
             elif kind == "rejected":
                 rejected += 1
+            elif kind == "failed":
+                failed_runs += 1
+                failed_msgs.setdefault(res[:120], cmdline)
             else:
-                spec_fail.append(("lmplz:" + kind, {"corpus": "\n".join(lines)[:400000], "order": order, "cmd": cmdline, "cfg": cfg, "stderr": res},
+                spec_fail.append(("lmplz:" + kind, {"corpus": "\n".join(lines)[:400000], "order": order, "cmd": cmdline, "cfg": cfg, "extra": extra, "stderr": res},
                                   "lmplz %s under an accepted-looking configuration: %s" % (kind, res[:200])))
-        lattice_report.append({"corpus": name, "sentences": len(lines), "order": order, "accepted": sum(1 for k, _ in per_cfg if k == "ok"),
+        lattice_report.append({"corpus": name, "sentences": len(lines), "order": order, "options": " ".join(extra), "accepted": sum(1 for k, _ in per_cfg if k == "ok"),
                                "rejected": sum(1 for k, _ in per_cfg if k == "rejected")})
         if ref is None:
-            spec_fail.append(("lmplz:nothing-accepted", {"corpus": name}, "no configuration of the lattice was accepted"))
+            # nothing succeeded for this (corpus, options): the property ("whenever lmplz succeeds") says nothing; shown in the evidence
+            nothing_accepted.append(name)
 
-    ctx.count("evaluations", len(comp) + tool_runs)
+    ctx.count("evaluations", len(comp) + adjust_cases + tool_runs)
+    ctx.coverage["adjust_counts_cases"] = adjust_cases
     ctx.coverage["distinct_nontrivial"] = len(nontrivial) + accepted
     ctx.coverage["rule"] = ("component cases: corpus x order 1..5 x block capacity (1, 2, 3, 4, 7, up to 2000 records) x block count x vocabulary estimate; "
-                            "non-trivial = at least 3 blocks and some n-gram deduplicated inside a block (distinct model case lines).  Tool runs: every accepted lmplz run of "
+                            "non-trivial = at least 3 blocks and some n-gram deduplicated inside a block (distinct model case lines).  AdjustCounts cases: the sorted highest-order counts of a "
+                            "small corpus (record-id corpora: long runs of `<s> <s> id`), order 2..5, pruning threshold 0..3 on the highest order, optional pruned words, fed in one block, "
+                            "in blocks of one record, in blocks cut around/inside the `<s>` runs, in random blocks (with empty blocks); non-trivial = more than one block and some entry with "
+                            "<s> in position 1.  Tool runs: every accepted lmplz run of "
                             "the lattice (-S 180K..20M, --sort_block 128b..64K, --minimum_block 40b..1K, --block_count 1..5, --vocab_estimate 1..200000, two temp "
-                            "directories, repeated runs) counts as one non-trivial evaluation; rejected configurations are counted separately and are not violations.")
+                            "directories, repeated runs, taskset/nice) counts as one non-trivial evaluation; rejected configurations are counted separately and are not violations.  "
+                            "Outputs are compared within one (corpus, order, modelling options); modelling options include --prune with non-zero thresholds on the highest "
+                            "(and next) order and, in the thorough tier, --limit_vocab_file; corpora include record-id corpora (every line of a record starts with a unique id: "
+                            "long runs of adjacent `<s> <s> id` entries in the highest order) so that block boundaries of the low-memory configurations fall inside those runs.")
     ctx.coverage["component_cases"] = len(comp)
     ctx.coverage["lmplz_runs"] = tool_runs
     ctx.coverage["lmplz_accepted"] = accepted
     ctx.coverage["lmplz_rejected"] = rejected
+    ctx.coverage["corpora_without_any_successful_run"] = nothing_accepted
+    ctx.coverage["lmplz_failed_with_other_exception"] = failed_runs
+    ctx.coverage["lmplz_failure_messages"] = [{"message": m, "cmd": c[:400]} for m, c in list(failed_msgs.items())[:5]]
     ctx.coverage["lattice"] = lattice_report
     tr = ctx.counts.pop("_truncs", [])
     ctx.coverage["ftruncate_calls_per_run_min_max"] = [min(tr), max(tr)] if tr else None
     ctx.coverage["runs_with_extra_merge_passes"] = sum(1 for t in tr if tr and t >= min(tr) + 8)
-    ctx.coverage["traces_validated_against_impl"] = len(comp) - len(mismatches)
+    ctx.coverage["traces_validated_against_impl"] = len(comp) + adjust_cases - len(mismatches)
     for c, o in list(zip(comp, iout))[:3]:
         ctx.sample({"driver_case": c[0], "impl": o[:300]})
     ctx.assumptions += ["scheduling is varied by repeated runs under the OS scheduler, by pinning all threads to one CPU (taskset) and by nice; there is no controlled pre-emption inside lmplz",
                         "vocabulary ids of the model are first-occurrence numbers computed by the harness (GrowableVocab's numbering is checked by the oracle through the type count and the records)",
                         "extraction (ExtrOcamlBasic only), OCaml/C++ drivers and the Python oracle are trusted"]
-    for sig, rep, msg in spec_fail[:5]:
-        ctx.report("spec:" + sig, msg, rep)
+    seen_sigs = []
+    for sig, rep, msg in spec_fail:            # one report per signature, at most 6 signatures (component and tool level both get a say)
+        if sig not in seen_sigs and len(seen_sigs) < 6:
+            seen_sigs.append(sig)
+            ctx.report("spec:" + sig, msg, rep)
     if not spec_fail:
         if mismatches:
             il, ml, a, b = mismatches[0]
-            ctx.report("correspondence:corpus_count", "per-block records of CorpusCount differ from the model of Writer::Append (the specification oracle accepts the implementation's blocks)",
+            which = "collapse_stream" if il.startswith("AC") else "corpus_count"
+            ctx.report("correspondence:" + which, "per-block records of %s differ from the model (the specification oracle accepts the implementation's blocks)" % ("CollapseStream" if which == "collapse_stream" else "CorpusCount / Writer::Append"),
                        {"correspondence": "C07 extracted model vs c07_driver", "driver_case": il, "model_case": ml[:100000], "impl": a[:3000], "model": b[:3000],
                         "n_mismatches": len(mismatches)}, found=False)
         elif model_broken:
@@ -361,7 +571,7 @@ def replay(ctx, obj):
         results = []
         for key in ("reference_cfg", "differing_cfg", "cfg"):
             if key in r:
-                kind, res, cmdline = run_lmplz(ctx, tool, path, r["order"], r[key], "replay-" + key)
+                kind, res, cmdline = run_lmplz(ctx, tool, path, r["order"], r[key], "replay-" + key, r.get("extra", []))
                 print(key + ":", "lmplz", cmdline, "->", kind, res if kind != "ok" else "")
                 results.append((kind, res))
         if any(k in ("crash", "hang") for k, _ in results):
@@ -374,6 +584,17 @@ def replay(ctx, obj):
         print("oracle: ok")
         return 0
     impl = vlib.compile_driver("c07_driver", DRIVER, libs=("kenlm_builder", "kenlm", "kenlm_util"))
+    if r.get("adjust"):
+        o = vlib.run_lines(impl, [r["driver_case"]], env={"VERIF_TMP": os.path.join(ctx.scratch, "tmp-")})[0]
+        g = {"order": r["order"], "thr": r["thr"], "pw": r["pw"], "recs": [(tuple(k), c) for k, c in r["recs"]]}
+        msg = oracle_adjust(g, o)
+        if not msg and "reference_case" in r:
+            o2 = vlib.run_lines(impl, [r["reference_case"]], env={"VERIF_TMP": os.path.join(ctx.scratch, "tmp-")})[0]
+            strip = lambda x: [p for i, p in enumerate(x.split(" # ")) if i != r["order"] - 1]
+            if strip(o) != strip(o2):
+                msg = "lower-order output / statistics differ between the two block splits"
+        print("case:", r["driver_case"][:500], "\nimpl:", o[:500], "\noracle:", msg or "ok")
+        return 1 if msg else 0
     path = os.path.join(ctx.scratch, "replay.txt")
     open(path, "w").write(r["corpus"])
     f = r["driver_case"].split()
